@@ -122,9 +122,13 @@ theorem NF.parseIfd0 (tb : Tables) (r : R) (t : Tag) : NF (parseIfd0 tb r t) := 
   repeat' (with_reducible apply NF.ite)
   all_goals nf2
 
+theorem NF.parseTag0 (tb : Tables) (r : R) (t : Tag) : NF (parseTag0 tb r t) := by
+  unfold Exif.parseTag0
+  exact NF.ite (NF.parseIfd0 _ _ _) (NF.ite (NF.parseExifIfd _ _) (NF.ite (NF.parseGpsIfd _ _) (NF.ok _)))
+
 theorem NF.parseTag (tb : Tables) (r : R) (t : Tag) : NF (parseTag tb r t) := by
   unfold Exif.parseTag
-  exact NF.ite (NF.parseIfd0 _ _ _) (NF.ite (NF.parseExifIfd _ _) (NF.ite (NF.parseGpsIfd _ _) (NF.ok _)))
+  exact NF.bindO (NF.parseTag0 _ _ _) (fun _ => NF.ok _)
 
 /-! the directory reader -/
 
